@@ -7,7 +7,8 @@ from ..buscheck import fld, hexname, Tracker
 MODULE = "Dbus.Props.C09"
 THEOREMS = ["reply_without_slot_refused", "reply_consumes_slot", "second_reply_finds_no_slot", "no_reply_expected_no_slot",
             "outstanding_serial_refused", "pending_never_duplicated", "callee_gone_one_noreply_each", "timeout_one_noreply_each",
-            "noReply_shape", "full_queue_opens_no_slot"]
+            "noReply_shape", "full_queue_opens_no_slot", "expire_due_one_noreply_each", "reply_deadline_is_fixed",
+            "young_call_survives", "no_reply_timeout_nothing_expires"]
 BUS = "org.freedesktop.DBus"
 ERR = "org.freedesktop.DBus.Error."
 # the system bus default as far as replies go: method calls and signals may be sent, replies only when requested
@@ -21,10 +22,12 @@ W = {"call": 32, "reply": 34, "signal": 4, "request": 10, "close": 6, "connect":
      "addmatch": 0, "removematch": 0, "query": 1, "driver_edge": 1, "badtype": 1, "nodest": 1, "garbage": 1}
 
 
-def oracle(tr):
+def oracle(tr, reply_timeout=None):
     bad = []
     tk = Tracker()
     slots = []          # (caller cid, callee cid, serial)
+    born = {}           # slot -> the virtual time it was recorded at (histories with `advance` ops)
+    now = 0
     for i, (per, closed) in enumerate(tr.steps):
         tk.before(i, tr)
         op = tr.ops[i]
@@ -57,7 +60,7 @@ def oracle(tr):
                     s = (actor, owner, int(fld(sent, "ser")))
                     if s in slots:
                         bad.append((None, "step %d: a call reusing outstanding serial %d was delivered" % (i, s[2])))
-                    slots.append(s)
+                    slots.append(s); born[s] = now
         gone = set(closed) | ({op[1]} if op[0] == "close" else set())
         for c in gone:
             for s in list(slots):
@@ -69,6 +72,13 @@ def oracle(tr):
             for s in slots:
                 expected_noreply.setdefault(s[0], []).append(s[2])
             slots = []
+        if op[0] == "advance" and reply_timeout:
+            # the deadline of a call is fixed when it is delivered: exactly the calls older than the timeout have run out
+            now += op[1]
+            for s in list(slots):
+                if born.get(s, 0) + reply_timeout <= now:
+                    expected_noreply.setdefault(s[0], []).append(s[2])
+                    slots.remove(s)
         for c in set(noreply) | set(expected_noreply):
             a, b = sorted(noreply.get(c, [])), sorted(expected_noreply.get(c, []))
             if a != b and c in tk.live and c not in gone and c not in tk.stalled and op[0] != "unstall":
@@ -89,7 +99,27 @@ def run(ctx):
     # callees and callers that do not read: a call refused because the callee's queue is full opens no slot
     buscheck.run_histories(ctx, n // 2, 80, oracle, gen_kw={"weights": dict(W, stall=6, unstall=5), "max_conns": 4, "no_eavesdrop": True},
                            policy=REQUESTED, limits={"outgoing": 20000}, seed_salt=23, label="slow-readers")
+    # deadlines: a finite reply timeout (800 s) against a virtual clock that moves in steps of 450 s and 700 s; many calls stay
+    # unanswered, callees leave while younger calls are outstanding
+    from .. import actcheck, actdiff, busgen
+    actcheck.run_histories(ctx, n // 2, 70, actdiff.Svc([]), gen_kw={"max_conns": 4, "plain_names": busgen.NAMES,
+                           "weights": dict(W, reply=12, close=9, connect=8, hello=7, advance=9, actsleep=0, svcexit=0, startsvc=0)},
+                           policy=REQUESTED, limits={"reply_timeout": TIMED_REPLY_TIMEOUT}, seed_salt=24, label="reply-deadlines",
+                           oracle_fn=timed_oracle, prop="C09")
+
+
+def timed_oracle(tr):
+    return oracle(tr, reply_timeout=TIMED_REPLY_TIMEOUT)
+
+
+TIMED_REPLY_TIMEOUT = 800000
 
 
 def replay(path):
+    import json
+    with open(path) as f:
+        d = json.load(f)
+    if (d.get("replay") or d).get("kind") == "act-history":
+        from .. import actcheck
+        return actcheck.replay_history(path, oracle_fn=timed_oracle, prop="C09")
     return buscheck.replay_history(path, oracle, "C09")
